@@ -33,16 +33,16 @@ type ClauseRow struct {
 }
 
 type PropSpec struct {
-	ID       string
-	Funcs    []PropFunc
-	Sweeps   []string // regexps over function keys: safety-only, zero-annotation
-	SweepTerm bool
+	ID          string
+	Funcs       []PropFunc
+	Sweeps      []string // regexps over function keys: safety-only, zero-annotation
+	SweepTerm   bool
 	SweepSafety bool // sweeps drop ensures/invariants (functional contracts are proved under another property)
-	Lemmas   []string
-	Ifaces   []string
-	Clauses  []ClauseRow
-	Assumes  []string
-	Bounded  []string
+	Lemmas      []string
+	Ifaces      []string
+	Clauses     []ClauseRow
+	Assumes     []string
+	Bounded     []string
 }
 
 func expandKey(k string) string {
@@ -511,21 +511,21 @@ func RunProperty(args []string) int {
 		"assumptions": assumptions,
 		"coverage": map[string]interface{}{
 			"obligations": nObl, "discharged": nDis,
-			"checker_cmd":  fmt.Sprintf("/verif/run %s %s  (govc: go/ssa of /repo -> VCs -> z3|z3-new|cvc5 race, %ds/query)", id, tier, int(qTimeout.Seconds())),
-			"trusted_base": tb,
-			"functions_under_contract": dedup(funcs),
-			"inlined_callees":          dedup(inlined),
+			"checker_cmd":                  fmt.Sprintf("/verif/run %s %s  (govc: go/ssa of /repo -> VCs -> z3|z3-new|cvc5 race, %ds/query)", id, tier, int(qTimeout.Seconds())),
+			"trusted_base":                 tb,
+			"functions_under_contract":     dedup(funcs),
+			"inlined_callees":              dedup(inlined),
 			"uncontracted_callees_havoced": dedup(uncontracted),
-			"by_backend":               byBackend,
-			"solver_s":                 solverS,
-			"samples":                  samples,
-			"clauses":                  ps.Clauses,
-			"bounded":                  ps.Bounded,
-			"arithmetic":               "int/int64: mathematical integers with an `ovf` obligation on every + - * (proved in range); other integer types: explicit wrap modulo 2^N; Go truncating / and %; floats per function: ieee (SMT FloatingPoint), bits (BV64 payload) or abstract (uninterpreted ops)",
-			"dropped_by_translation":   []string{"defer/rundefers bookkeeping (no defer in scope; a function using defer/go/select/chan is refused as `subset`)", "calls outside /repo: assumed contracts / IEEE models listed in trusted_base", "function values: uninterpreted pure total functions", "GC, stack growth, scheduling"},
-			"vacuity":                  map[string]int{"return_paths_sat": vacOK, "return_paths_unsat": vacBad, "return_paths_unknown": vacUnk},
-			"known_findings_seen":      knownSeen,
-			"obligation_list":          records,
+			"by_backend":                   byBackend,
+			"solver_s":                     solverS,
+			"samples":                      samples,
+			"clauses":                      ps.Clauses,
+			"bounded":                      ps.Bounded,
+			"arithmetic":                   "int/int64: mathematical integers with an `ovf` obligation on every + - * (proved in range); other integer types: explicit wrap modulo 2^N; Go truncating / and %; floats per function: ieee (SMT FloatingPoint), bits (BV64 payload) or abstract (uninterpreted ops)",
+			"dropped_by_translation":       []string{"defer/rundefers bookkeeping (no defer in scope; a function using defer/go/select/chan is refused as `subset`)", "calls outside /repo: assumed contracts / IEEE models listed in trusted_base", "function values: uninterpreted pure total functions", "GC, stack growth, scheduling"},
+			"vacuity":                      map[string]int{"return_paths_sat": vacOK, "return_paths_unsat": vacBad, "return_paths_unknown": vacUnk},
+			"known_findings_seen":          knownSeen,
+			"obligation_list":              records,
 		},
 	}
 	os.MkdirAll(filepath.Join(verifDir, "evidence"), 0o755)
